@@ -81,7 +81,7 @@ def union_enum(name, variants):
 # ------------------------------------------------------------------------------------------------ names
 
 def module_ns(fid):
-    return f"{CRATE}.f{fid}"
+    return f"{CRATE}.gen.f{fid}"
 
 
 def fullname(fam, d):
@@ -102,8 +102,14 @@ def peel(te):
     return te
 
 
+RENAME_OVERRIDES = {}      # (family id, enum, variant) -> observed branch name (see C20.py, naming pass)
+
+
 def branch_name(fam, enum_name, variant):
     """the Avro name of the union branch a newtype variant maps to = the serde name the variant must carry"""
+    o = RENAME_OVERRIDES.get((fam["id"], enum_name, variant["n"]))
+    if o is not None:
+        return o
     te = variant["t"]
     if te is None:
         return "Null"
@@ -209,7 +215,7 @@ def rust_str(s):
 
 
 def rust_family(fam, values):
-    out = [f"pub mod f{fam['id']} {{\n\t#![allow(unused, non_camel_case_types, non_snake_case)]\n\tuse super::prelude::*;\n"]
+    out = [f"pub mod f{fam['id']} {{\n\t#![allow(unused, non_camel_case_types, non_snake_case)]\n\tuse crate::prelude::*;\n"]
     for d in fam["defs"]:
         out.append(rust_def(fam, d))
     out.append(f"\tpub type Root = {rust_type(fam['root'])};\n")
@@ -227,7 +233,7 @@ def rust_program(fams_values):
     out.append("pub fn run_all(only: &dyn Fn(&str) -> bool) {\n")
     for fam, _ in fams_values:
         i = fam["id"]
-        out.append(f'\tif only("f{i}") {{ run::<f{i}::Root>("f{i}", f{i}::values); }}\n')
+        out.append(f'\tif only("f{i}") {{ crate::run::<f{i}::Root>("f{i}", f{i}::values); }}\n')
     out.append("}\n")
     return "".join(out)
 
@@ -553,3 +559,60 @@ def random_family(rng, fid):
         root = opt(root)
     # definitions are emitted in creation order; a namespace override must be unique per (ns, name): names are unique already
     return {"id": fid, "defs": defs, "root": root, "cls": "plain", "note": "random"}
+
+
+# ------------------------------------------------------------------------------------------------ TLC-enumerated shapes
+
+def family_from_scenario(s):
+    """MC_Derive scenario {x, y, root (monomorphic TEs over the fixed definitions R L E N U F G<i32> G<String>)} -> family"""
+    top = False
+
+    def te(t):
+        k = t["k"]
+        if k == "ref":
+            return [None, ref("R"), ref("L"), ref("E"), ref("N"), ref("U"), ref("F"), ref("G", P("i32")), ref("G", P("string"))][t["i"]]
+        if k in ("opt", "vec", "map"):
+            inner = te(t["t"])
+            if k == "opt" and t["t"]["k"] == "ref" and t["t"]["i"] == 1 and not top:
+                inner = ptr("box", inner)           # Option<Box<R>> inside R
+            return {"k": k, "t": inner}
+        return {"k": k}
+    x, y = te(s["x"]), te(s["y"])
+    top = True
+    root = te(s["root"])
+    alld = [struct_("R", [("a", x), ("b", y)]), struct_("L", [("x", P("i32"))]), unit_enum("E", ["A", "B"]), newtype("N", P("i32")),
+            union_enum("U", [("Null", None), ("Int", P("i32")), ("L", ref("L"))]), newtype("F", {"k": "bytearr", "n": 2}),
+            struct_("G", [("g", {"k": "param", "i": 0})], gparams=1)]
+    used = set()
+
+    def walk(t):
+        if t["k"] == "ref":
+            if t["d"] not in used:
+                used.add(t["d"])
+                d = [d for d in alld if d["rust"] == t["d"]][0]
+                for f in d.get("fields", []):
+                    walk(f["t"])
+                for v in d.get("variants", []) if d["kind"] == "union_enum" else []:
+                    if v["t"] is not None:
+                        walk(v["t"])
+                if d["kind"] == "newtype":
+                    walk(d["t"])
+            for a in t["args"]:
+                walk(a)
+        elif "t" in t and isinstance(t["t"], dict):
+            walk(t["t"])
+    walk(root)
+    return {"id": -1, "defs": [d for d in alld if d["rust"] in used], "root": root, "cls": "plain", "note": "TLC-enumerated shape", "model_nodes": s["nodes"]}
+
+
+def normalise_names(nodes):
+    """node vector with every fullname replaced by the index of its first occurrence (comparison up to renaming)"""
+    seen = {}
+    out = []
+    for n in nodes:
+        n = dict(n)
+        if "name" in n:
+            key = bytes(n["name"]).decode()
+            n["name"] = seen.setdefault(key, len(seen))
+        out.append(n)
+    return out
